@@ -343,3 +343,7 @@ mod test {
         )
     }
 }
+
+#[cfg(kani)]
+#[path = "/verif/kani/colorfns_other.rs"]
+mod kani_verif;
